@@ -213,5 +213,6 @@ func checkC16(p *Program, r *Report) {
 	}
 	r.Floor("R16.2", "uses of conversion constants in models", uses, 3)
 	checkIdentities(p, r)
+	checkConversionScales(p, r, "R16.6", []string{"models"})
 	checkPathIdentities(p, r)
 }
